@@ -268,7 +268,7 @@ def run(rep, prog, thorough):
         "considerPEL(uh, same Config) and contribute at most one count/entry/document per file under exactly that condition; "
         "summary fields are read from the same decoded values; no sort_keys.")
     fm = FullMain(prog)
-    cfgs = [e.data[1] for e in fm.events if e.kind == "new" and e.data[0] == "pel.peltool.config.Config" and e.func == PT + "main"]
+    cfgs = [e.data[1] for e in fm.events if e.kind == "new" and e.data[0] == "pel.peltool.config.Config"]
     if not cfgs:
         raise AnalysisError("main() does not build a Config")
     cfg = cfgs[0]
